@@ -356,8 +356,9 @@ func Parse(block []rune, pos int) (pt ParsedTokens, syntaxHighlighted string) {
 			default:
 				pt.Loc = i
 				syntaxHighlighted += string(block[i])
-				if pt.ExpectParam && len(pt.Parameters) == 0 {
-					// `name = value` is an assignment
+				if (pt.ExpectParam && len(pt.Parameters) == 0) ||
+					(len(pt.Parameters) == 1 && strings.Trim(pt.Parameters[0], "+-*/:?|.") == "") {
+					// `name = value`, `name += value`, etc are assignments
 					pt.Unsafe = true
 				}
 				pt.ExpectParam = true
